@@ -11,6 +11,7 @@ package fakeprom
 //	srv.Requests()                              // every request seen, in arrival order
 //	srv.Problems()                              // protocol trouble: unparsable / fractional parameters, wrong path
 //	srv.SetDelays(d)                            // unheld requests sleep d[(start/1800)%len(d)] before answering
+//	bm.Faults                                   // optional: per-slice faults (503 / connection reset / timeout) of this server
 //	bm.Orders                                   // optional: per-slice order in which the series are listed in a response
 //
 // Presence model: a sample of series s exists at unix second t  <=>  bit floor((t-Origin)/Step) of s is set.
@@ -43,6 +44,10 @@ type Bitmap struct {
 	// Orders[(start/1800) % len(Orders)], so neighbouring slices can list them differently (Prometheus gives no
 	// ordering guarantee for a matrix). Empty = declaration order.
 	Orders [][]int `json:"orders,omitempty"`
+	// Faults (optional): per-slice fault table. A request for a slice starting at `start` gets Faults[(start/1800) %
+	// len(Faults)]: "" answers normally, "503" answers 503 with a plain body, "reset" drops the connection without an
+	// answer, "timeout" blocks until the client gives up. The request is logged either way.
+	Faults []string `json:"faults,omitempty"`
 }
 
 // Expand returns the bits of series i (length = sum of runs).
@@ -200,6 +205,31 @@ func (s *BitmapServer) handle(w http.ResponseWriter, r *http.Request) {
 	s.mu.Unlock()
 	if delay > 0 {
 		time.Sleep(delay)
+	}
+	if n := len(s.bm.Faults); n > 0 {
+		switch s.bm.Faults[int((req.Start/1800)%int64(n)+int64(n))%n] {
+		case "503":
+			http.Error(w, "Service Unavailable", http.StatusServiceUnavailable)
+			return
+		case "reset":
+			if hj, ok := w.(http.Hijacker); ok {
+				if conn, _, err := hj.Hijack(); err == nil {
+					if tc, ok := conn.(*net.TCPConn); ok {
+						_ = tc.SetLinger(0)
+					}
+					_ = conn.Close()
+					return
+				}
+			}
+			http.Error(w, "reset", http.StatusServiceUnavailable)
+			return
+		case "timeout":
+			select {
+			case <-r.Context().Done():
+			case <-time.After(60 * time.Second):
+			}
+			return
+		}
 	}
 
 	if h != nil {
